@@ -41,6 +41,9 @@ QUICK_VALUES = [
     (NONE_STR, "Optional[int]"),
     ("foo", "str"), ("two words", "str"), ("3", "str"), ("a.b", "str"), ("", "str"), ("it's", "str"),
     ("-", "str"), ("mnist", "str"), ("e.g. this", "str"), ("~/tensorflow_datasets", "str"),
+    # literal-looking strings under compound types that admit str only as one alternative / element
+    ("5", "Union[str, int]"), ("-3", "Optional[Union[str, float]]"), ("True", "Union[str, int]"), ("1e3", "List[str]"),
+    ("0.5", "Optional[Literal['0.5', 'x']]"),
     ("```np.empty(0)```", None), ("```['x', 'y']```", None), ("```[]```", None), ("```(1, 'x')```", None),
     ("```foo(1.5)```", None), ("```{'k': 1}```", None), ("(np.empty(0), np.empty(0))", None),
 ]
